@@ -5,20 +5,41 @@ EXTENDS Witness, Json
 CONSTANT Depth    \* length of exported behaviours (cover and simulation configs)
 
 \* exhaustive check: history variables do not distinguish states
-StateView == held
+StateView == <<held, cos>>
+
+\* quick exhaustive check: spellings and faults are not crossed with one another and alias-addressed updates
+\* carry the correct proof only (an alias-addressed update is refused before the proof or the database is
+\* looked at); reads keep the full cross.  Witness.cfg (thorough) checks Next, the full cross.
+UncrossedNext ==
+  \/ \E l \in AllLogs, c \in Cands, pf \in Proofs : Update(l, "canon", c, pf, "none")
+  \/ \E l \in AllLogs, sp \in Aliases, c \in Cands : Update(l, sp, c, "correct", "none")
+  \/ \E l \in AllLogs, c \in Cands, pf \in Proofs, f \in Faults : Update(l, "canon", c, pf, f)
+  \/ NextRead
 
 \* cosigned reply carries the STH held after the step (as an action property so that it is
 \* evaluated on every transition, also those leading to an already known view)
 CosignedIsHeldAct == [][last'.reply.kind = "cosigned" => last'.reply.sth = held'[last'.log]]_vars
 
+(* --- the request classes added to the cover: spellings and storage faults --- *)
+CONSTANTS CoverAliases,      \* spellings exercised in every reachable state
+          CoverFaultProofs   \* proof labels paired with every fault
+\* candidates that a fresh row would accept (the ones a second history would be opened with)
+Acceptable(l) == {c \in Cands : c # Garbage /\ ParsesFor(c, l) /\ c.ts = 1}
+ExtraNext ==
+  \/ \E l \in Logs, sp \in CoverAliases : \E c \in Acceptable(l) : Update(l, sp, c, "correct", "none")
+  \/ \E l \in Logs, pf \in CoverFaultProofs, f \in Faults \ {"none"} : \E c \in Acceptable(l) : Update(l, "canon", c, pf, f)
+  \/ \E l \in Logs, sp \in CoverAliases : GetSTH(l, sp, "none")
+  \/ \E l \in AllLogs, f \in ReadOpFaults \ {"none"} : GetSTH(l, "canon", f)
+  \/ \E f \in ReadOpFaults \ {"none"} : GetLogs(f)
+
 (* --- cover: every (state reachable in Depth-1 steps) x (every action) pair ends one behaviour --- *)
-CoverNext == Len(hist) < Depth /\ Next
-CoverView == <<held, IF Len(hist) >= Depth THEN last ELSE None>>
+CoverNext == Len(hist) < Depth /\ (PlainNext \/ ExtraNext)
+CoverView == <<held, cos, IF Len(hist) >= Depth THEN last ELSE None>>
 ExportAtDepth == Len(hist) = Depth => PrintT(<<"BEH", ToJson(hist)>>)
 \* Simulation evaluates invariants on every candidate successor, so the export is attached to a
 \* unique closing step that only the chosen state takes.
 End == [op |-> "End"]
-Finish == Len(hist) = Depth /\ hist' = Append(hist, End) /\ UNCHANGED <<held, last>>
+Finish == Len(hist) = Depth /\ hist' = Append(hist, End) /\ UNCHANGED <<held, cos, last>>
 ExportFinished == (Len(hist) = Depth + 1) => PrintT(<<"BEH", ToJson(SubSeq(hist, 1, Depth))>>)
 
 (* --- simulation: weighted towards updates that have a chance of moving the witness forward --- *)
@@ -30,11 +51,20 @@ Plausible(l, c) == IF c = Garbage \/ l \notin Logs THEN FALSE
 PlausibleCands(l) == {c \in Cands : Plausible(l, c)}
 SimNext ==
   /\ Len(hist) < Depth
-  /\ \E kind \in {RandomElement(1..10)}, l \in {RandomElement(Logs)} :   \* bound once (a LET would re-draw per use)
-        CASE kind \in 1..4 -> \E c \in {RandomElement(PlausibleCands(l))} : Update(l, c, "correct")
-          [] kind \in 5..6 -> \E c \in {RandomElement(PlausibleCands(l))}, pf \in {RandomElement(Proofs)} : Update(l, c, pf)
-          [] kind \in 7..8 -> \E l2 \in {RandomElement(AllLogs)}, c \in {RandomElement(Cands)}, pf \in {RandomElement(Proofs)} : Update(l2, c, pf)
-          [] kind = 9 -> \E l2 \in {RandomElement(AllLogs)} : GetSTH(l2)
-          [] OTHER -> GetLogs
+  /\ \E kind \in {RandomElement(1..15)}, l \in {RandomElement(Logs)} :   \* bound once (a LET would re-draw per use)
+        CASE kind \in 1..4 -> \E c \in {RandomElement(PlausibleCands(l))} : Update(l, "canon", c, "correct", "none")
+          [] kind \in 5..6 -> \E c \in {RandomElement(PlausibleCands(l))}, pf \in {RandomElement(Proofs)} : Update(l, "canon", c, pf, "none")
+          [] kind \in 7..8 -> \E l2 \in {RandomElement(AllLogs)}, sp \in {RandomElement(Spellings)}, c \in {RandomElement(Cands)},
+                                 pf \in {RandomElement(Proofs)}, f \in {RandomElement(Faults)} : Update(l2, sp, c, pf, f)
+          [] kind = 9 -> \E l2 \in {RandomElement(AllLogs)}, sp \in {RandomElement(Spellings)},
+                            f \in {RandomElement(ReadOpFaults)} : GetSTH(l2, sp, f)
+          [] kind = 10 -> \E f \in {RandomElement(ReadOpFaults)} : GetLogs(f)
+          \* an acceptable-looking STH under another spelling of the log's id (fork, stale, newer)
+          [] kind \in 11..12 -> \E sp \in {RandomElement(Aliases)}, c \in {RandomElement(Acceptable(l))},
+                                   pf \in {RandomElement({"correct", "empty"})} : Update(l, sp, c, pf, "none")
+          \* an update that would be stored, under a storage fault
+          [] kind \in 13..14 -> \E c \in {RandomElement(PlausibleCands(l))}, f \in {RandomElement(Faults \ {"none"})} :
+                                   Update(l, "canon", c, "correct", f)
+          [] OTHER -> GetSTH(l, "canon", "none")
 SimNextF == SimNext \/ Finish
 =============================================================================
